@@ -278,6 +278,31 @@ pub fn check(ctx: &mut Ctx) {
         }
     }
 
+    // ---- (f) "text that auto-converts to a number N also coerces to N wherever a number is
+    // expected … arithmetic": `a op b` with an operand given as numeric TEXT must equal `a op b`
+    // with that operand given as the number — for every operator and on either side
+    let nta = ctx.budget(300, 20000);
+    for _ in 0..nta {
+        let mut r = ctx.rng.fork();
+        let nums = ["4", "10", "-3", "2.5", "-1e3", "0.125", "1,000", "7", "100", "-0.5", "3e2", "12"];
+        let (a, b) = (*r.pick(&nums), *r.pick(&nums));
+        let num_lit = |t: &str| -> String { let v: f64 = t.replace(',', "").parse().unwrap(); if v.fract() == 0.0 && v.abs() < 1e15 { format!("{}", v as i64) } else { format!("{}", v) } };
+        let (ta, tb) = match r.below(3) { 0 => (true, false), 1 => (false, true), _ => (true, true) };
+        let doc_text = format!("{{\"a\":{},\"b\":{}}}\n", if ta { format!("\"{}\"", a) } else { num_lit(a) }, if tb { format!("\"{}\"", b) } else { num_lit(b) });
+        let doc_num = format!("{{\"a\":{},\"b\":{}}}\n", num_lit(a), num_lit(b));
+        let q = "* | json | a + b as s | a - b as d | a * b as p | a / b as q | b - a as e | b / a as f | fields s, d, p, q, e, f";
+        let key = format!("text-arith:{}:{}:{}{}", a, b, ta, tb);
+        let rt = imp::run(q, doc_text.as_bytes(), "json", 10);
+        let rn = imp::run(q, doc_num.as_bytes(), "json", 10);
+        let info = serde_json::json!({"query": q, "with_text": doc_text, "with_numbers": doc_num});
+        let (jt, jn) = (canon::normalized_lines(&rt.stdout), canon::normalized_lines(&rn.stdout));
+        if jt.is_some() && jt == jn && rt.error_lines == rn.error_lines {
+            ctx.case("text-arith", &key, "pass", info);
+        } else {
+            ctx.case("text-arith", &key, "viol", serde_json::json!({"class": "", "what": "arithmetic on numeric text differs from the same arithmetic on the numbers", "got_with_text": String::from_utf8_lossy(&rt.stdout), "got_with_numbers": String::from_utf8_lossy(&rn.stdout), "case": info}));
+        }
+    }
+
     // ---- soft-float and number formatting against the hardware / Rust's formatter (F-level)
     let nf = ctx.budget(3000, 300000);
     for _ in 0..nf {
